@@ -110,11 +110,18 @@ class Workload(object):
                 raise Skip('value-build:%s' % type(e).__name__)
             self.values.append(val)
             try:
-                self.encodings.append(self.enc_mod.encode(val, **self.enc_opts))
+                e_ = self.enc_mod.encode(val, **self.enc_opts)
             except RecursionError:
                 raise Skip('encode:RecursionError')
             except Exception as e:
                 raise Skip('encode:%s' % type(e).__name__)
+            if w.get('variant'):
+                # another valid BER form of the same value (long-form lengths, indefinite lengths,
+                # constructed strings, other TRUE octets): the properties quantify over valid
+                # encodings, not only over what the library's own encoder emits
+                from simkit import corrupt
+                e_ = corrupt.apply_variant(e_, w['variant'])
+            self.encodings.append(e_)
         self.use_spec = bool(w.get('use_spec', True))
         self.dec_kw = {}
         if w.get('open_types') and self.use_spec:
